@@ -9,10 +9,10 @@ from mc import rgfa
 
 ID = "C19"
 LEVEL = "exploration"
-TECHNIQUE = "bounded-exhaustive enumeration of every record sequence (all multisets in all orders) over a 20-record alphabet through run_stat against the definitions computed independently"
+TECHNIQUE = "bounded-exhaustive enumeration of every record sequence (all multisets in all orders) over a 31-record alphabet through run_stat against the definitions computed independently"
 RULE = (
     "record alphabet: read in {r1, r2} x class in {tp:A:P/mapq 60, tp:A:P/mapq 0, tp:A:S/60, tp:A:I/60, no tp/60} x quality in {(4 matches of 8, "
-    "span 4/16, cg 2=2X2=2D), (8 of 8, span 8/16, cg 8=)} = 20 records with dyadic ratios (exact float sums); every sequence of <=N records "
+    "span 4/16, cg 2=2X2=2D), (8 of 8, span 8/16, cg 8=), (8 of 8, span 16/16, cg 4=4=)} + one primary record without a CIGAR field = 31 records with dyadic ratios (exact float sums); every sequence of <=N records "
     "(N=3 quick, 4 thorough), with and without --cigar. evaluations = stat runs; non-trivial = files with >=2 records that mix primary and "
     "secondary records or hold several records of one read."
 )
@@ -33,11 +33,11 @@ NSHARD = {"quick": 16, "thorough": 64}
 
 
 def bounds(tier):
-    return {"max_records": 3 if tier == "quick" else 4, "alphabet": 20}
+    return {"max_records": 3 if tier == "quick" else 4, "alphabet": 31}
 
 
 CLASSES = [("P", 60), ("P", 0), ("S", 60), ("I", 60), (None, 60)]
-QUALS = [(4, 8, 0, 4, "2=2X2=2D"), (8, 8, 4, 12, "8=")]
+QUALS = [(4, 8, 0, 4, "2=2X2=2D"), (8, 8, 4, 12, "8="), (8, 8, 0, 16, "4=4=")]  # the last: columns say perfect, the CIGAR has two runs
 
 
 def alphabet():
@@ -47,6 +47,8 @@ def alphabet():
             for matches, block, qs, qe, cg in QUALS:
                 opt = ([f"tp:A:{tp}"] if tp else []) + ["NM:i:0", f"cg:Z:{cg}"]
                 out.append(rgfa.Rec(read, 16, qs, qe, "+", ">s1", 20, 0, 8, matches, block, mapq, opt))
+    # a primary record without any CIGAR field
+    out.append(rgfa.Rec("r2", 16, 0, 8, "+", ">s1", 20, 0, 8, 8, 8, 60, ["tp:A:P", "NM:i:0"]))
     return out
 
 
@@ -125,9 +127,11 @@ def judge(res, scratch, recs, cigar, reports=None, names=None):
     res.evaluations += 1
     e = expected(recs, cigar)
     case = {"records": [r.line() for r in recs], "cigar": cigar}
+    if len(recs) > 1000:
+        case = {"large": len(recs), "reversed": names == "large file reversed", "cigar": cigar}
     mixed = 0 < e["primary"] < e["total"]
     if len(recs) >= 2 and (mixed or e["reads"] < e["primary"]):
-        res.nt(fw.h64([case["records"], cigar]))
+        res.nt(fw.h64([case.get("records") or case, cigar]))
     if out.kind != "ok":
         kind = "all-secondary" if e["primary"] == 0 else "mixed"
         res.fail(f"C19/stat-failed:{out.sig()}:{kind}", f"stat failed on {names or len(recs)} ({e['primary']} primary, {e['secondary']} secondary): {out.brief()}", case)
@@ -180,6 +184,13 @@ def run_shard(spec, tier, scratch):
                 for cigar in (False, True):
                     judge(res, scratch, recs, cigar, reports, list(seq))
             reports.clear()
+    if spec["shard"] == 1 % spec["of"]:
+        # one deliberately large file (beyond any plausible batching threshold), in two orders
+        big = [A[(i * 11) % len(A)] for i in range(5003)]
+        for cigar in (False, True):
+            judge(res, scratch, big, cigar, None, "large file")
+            judge(res, scratch, big[::-1], cigar, None, "large file reversed")
+        res.count("large_file_records", len(big))
     if spec["shard"] == 0:
         res.sample({"alphabet_excerpt": [A[0].line(), A[3].line(), A[5].line(), A[8].line()], "a_file": [A[i].line() for i in (0, 5, 12)]})
     return res
@@ -187,6 +198,11 @@ def run_shard(spec, tier, scratch):
 
 def replay(case, scratch):
     res = fw.ShardResult()
+    if "large" in case:
+        A = alphabet()
+        big = [A[(i * 11) % len(A)] for i in range(case["large"])]
+        judge(res, scratch, big[::-1] if case.get("reversed") else big, case["cigar"], None, "large file reversed" if case.get("reversed") else "large file")
+        return res.failures
     recs = [rgfa.Rec.parse(l) for l in case["records"]]
     reports = None
     if case.get("other_order"):
